@@ -339,3 +339,27 @@ def r7(cx):
             cx.violation(k, "pin-guard-spans-execution", "%s: no PinGuard is alive while the statement executes (the guard is dropped before with_metrics_table runs): GC can delete a chunk the query planned over" % b.sp(execs[0]), [b.sp(execs[0])])
     if not done:
         cx.violation(QFT, "anchor-missing:execution", "query_for_tenant no longer executes through QueryEngine::with_metrics_table", [])
+
+
+@rule("C09", "R8", "one spelling of a path on both sides of the pin test: schedule_deletion queues the path exactly as it was handed over (the catalog's chunk_path, which is also what a "
+      "query pins); nothing converts or normalises it on the way into the queue - the pin registry is keyed by string, so a differently spelled queue entry is never found pinned")
+def r8(cx):
+    ck, b = cx.need_body(CMP + "schedule_deletion")
+    if b is None:
+        return
+    aggs = M.aggregates(b, lambda rv: rv.get("ak") == "adt" and (rv.get("adt") or "").endswith("PendingDeletion"))
+    if not cx.floor("PendingDeletion constructions in schedule_deletion", len(aggs), 1, ck):
+        return
+    for (bi, si, st) in aggs:
+        rv = st["rv"]
+        # a conversion into anything but a String is a change of spelling (object_store::path::Path::from strips and re-encodes)
+        conv = lambda t: t["callee"] in ("std::convert::From::from", "std::convert::Into::into", "std::convert::TryFrom::try_from", "std::str::FromStr::from_str", "core::str::<impl str>::parse") \
+            and "string::String" not in ((t.get("cargs") or "") + (t.get("self_ty") or "")).split(" as ")[0]
+        o = M.operand_origins(b, rv["ops"][rv["fields"].index("path")], at=(bi, si), stop_at=conv)
+        calls = sorted({(b.term(x[1][0]).get("cargs") or x[1][1]) for x in o if x[0] == "call"})
+        from_arg = any(x[0] in ("arg", "upvar") and str(x[1]) in ("path", "2") for x in o) or not calls
+        if from_arg and not calls:
+            cx.passed(ck, "queued-path-as-given", [b.sp(bi, si)])
+        else:
+            cx.violation(ck, "queued-path-as-given", "%s: the queued path is %s, not the path as handed over: GC asks the pin registry about a spelling no query ever pinned (e.g. a catalog path with a "
+                         "leading slash), finds it unpinned and deletes a file a running query is reading" % (b.sp(bi, si), ("passed through %s" % calls) if calls else "not the `path` argument"), [b.sp(bi, si)])
